@@ -138,6 +138,40 @@ Proof.
   - destruct (Nat.leb_spec off k); destruct (Nat.ltb_spec k (off + 1)); cbn [andb]; try reflexivity. lia.
 Qed.
 
+(* ------------------------------------------------------------------ sequences of stores *)
+
+(** `store; store; ...; store` as written in a block (the last one is the block's result) *)
+Fixpoint store_seq (ops : list (nat * list N)) (out : list N) : res (list N) :=
+  match ops with
+  | [] => Ok out
+  | (off, v) :: tl => match tl with [] => store out off v | _ => bind (store out off v) (store_seq tl) end
+  end.
+
+Fixpoint upd_seq (ops : list (nat * list N)) (out : list N) : list N :=
+  match ops with [] => out | (off, v) :: tl => upd_seq tl (upd out off v) end.
+
+Lemma store_seq_ok ops : forall out,
+  Forall (fun ov => fst ov + length (snd ov) <= length out) ops ->
+  store_seq ops out = Ok (upd_seq ops out) /\ length (upd_seq ops out) = length out.
+Proof.
+  induction ops as [|[off v] tl IH]; intros out H; [split; reflexivity|].
+  inversion H as [|x l H1 H2]; subst. cbn [fst snd] in H1.
+  assert (L : length (upd out off v) = length out) by (apply length_upd; exact H1).
+  assert (H2' : Forall (fun ov => fst ov + length (snd ov) <= length (upd out off v)) tl) by (rewrite L; exact H2).
+  destruct (IH (upd out off v) H2') as [E1 E2].
+  cbn [store_seq upd_seq]. rewrite store_ok by exact H1. split; [|lia].
+  destruct tl as [|p tl']; [reflexivity|]. cbn [bind]. exact E1.
+Qed.
+
+(** two adjacent stores are one store of the concatenation *)
+Lemma upd_seq_merge off n a b tl out :
+  length a = n -> off + n + length b <= length out ->
+  upd_seq ((off, a) :: (off + n, b) :: tl) out = upd_seq ((off, a ++ b) :: tl) out.
+Proof. intros Hn H. subst n. cbn [upd_seq]. rewrite upd_app by exact H. reflexivity. Qed.
+
+Lemma upd_seq_cons off v tl out : upd_seq ((off, v) :: tl) out = upd_seq tl (upd out off v).
+Proof. reflexivity. Qed.
+
 (* ------------------------------------------------------------------ loops *)
 
 (** [n] iterations of [f], the index starting at [i] and advancing by [W]:
